@@ -327,7 +327,20 @@ func CIDRv6(value any) bool { return CIDR(value, 6) }
 func Base64(value any) bool { return matchString(value, regex.Base64) }
 
 // Base64URL reports whether the string is valid Base64URL encoding.
-func Base64URL(value any) bool { return matchString(value, regex.Base64URL) }
+//
+// The pattern checks the alphabet and at most two trailing pad characters; the
+// length rule of RFC 4648 is checked here: without padding the length is not
+// 1 modulo 4, with padding it is a multiple of 4.
+func Base64URL(value any) bool {
+	str, ok := reflectx.StringVal(value)
+	if !ok || !regex.Base64URL.MatchString(str) {
+		return false
+	}
+	if strings.HasSuffix(str, "=") {
+		return len(str)%4 == 0
+	}
+	return len(str)%4 != 1
+}
 
 // Hex reports whether the string is a valid hexadecimal string.
 func Hex(value any) bool { return matchString(value, regex.Hex) }
